@@ -335,6 +335,9 @@ def spine_forms(b, depth):
 
 
 # ---- running one case ---------------------------------------------------------------------------------------------------
+CROSS = [None]
+
+
 def model_with(s, cond=None):
     """model of the solver's assertions (and cond), or None"""
     s.push()
@@ -342,6 +345,8 @@ def model_with(s, cond=None):
         s.add(cond)
     r = s.check()
     m = s.model() if r == z3.sat else None
+    if CROSS[0] is not None and r in (z3.sat, z3.unsat) and cond is not None and cond is not True:
+        CROSS[0].cross_check(s, 'sat' if r == z3.sat else 'unsat')
     s.pop()
     return m
 
@@ -452,6 +457,7 @@ def run_case(chk, engine, detector, su, label, loc_names, oracle_fn=None, confir
     """executes the detector's MIR on `su`, decides the oracle on every path, validates each path natively.
     `role`: prefix of the known-finding key (defaults to the detector name)."""
     res = CaseResult()
+    CROSS[0] = chk
     fn = engine.func(oracle.MIR_NAME[detector])
     try:
         paths = engine.explore(lambda en: en.call_mir(fn, [su]), max_paths=5000, base_constraints=list(base))
